@@ -90,7 +90,10 @@ def check_case(case, ctx, rec, pytrs):
             ctx.violation('flawed', case, "desc_is_flawed on a well-formed "
                           "description")
             return
-        pretty = d.pretty_desc()
+        k = len(text) % 4
+        pretty = (d.pretty_desc() if k < 2 else
+                  d.pretty_desc(word_sec='Section ') if k == 2 else
+                  d.pretty_desc(word_sec='§ ', justify_linebreaks=''))
         d2 = pytrs.PLSSDesc(pretty)
         ctx.hit('roundtrip:pretty_desc')
         got2 = [[t.trs, _ws(t.desc)] for t in d2.tracts]
